@@ -873,6 +873,9 @@ func (c *Conn) ReadBatchWith(cfg ReadBatchConfig) *Batch {
 	default:
 		throttle, highWaterMark, remain, err = readFetchResponseHeaderV2(&c.rbuf, size)
 	}
+	// When the broker reported an error the header parser stopped before the
+	// end of the response, what is left must not be seen by the next operation.
+	remain, err = c.skipRemainingOnKafkaError(remain, err)
 	if errors.Is(err, errShortRead) {
 		err = checkTimeoutErr(adjustedDeadline)
 	}
@@ -881,6 +884,9 @@ func (c *Conn) ReadBatchWith(cfg ReadBatchConfig) *Batch {
 	if err == nil {
 		if highWaterMark == offset {
 			msgs = &messageSetReader{empty: true}
+			// The empty reader never reads: skip the message set in case the
+			// broker sent one anyway.
+			_, err = discardN(&c.rbuf, remain, remain)
 		} else {
 			msgs, err = newMessageSetReader(&c.rbuf, remain)
 		}
@@ -1235,7 +1241,7 @@ func (c *Conn) writeCompressedMessages(codec CompressionCodec, msgs ...Message) 
 			}
 		},
 		func(deadline time.Time, size int) error {
-			return expectZeroSize(readArrayWith(&c.rbuf, size, func(r *bufio.Reader, size int) (int, error) {
+			return expectZeroSize(c.skipRemainingOnKafkaError(readArrayWith(&c.rbuf, size, func(r *bufio.Reader, size int) (int, error) {
 				// Skip the topic, we've produced the message to only one topic,
 				// no need to waste resources loading it in memory.
 				size, err := discardString(r, size)
@@ -1281,7 +1287,7 @@ func (c *Conn) writeCompressedMessages(codec CompressionCodec, msgs ...Message) 
 				// The response is trailed by the throttle time, also skipping
 				// since it's not interesting here.
 				return discardInt32(r, size)
-			}))
+			})))
 		},
 	)
 
@@ -1310,6 +1316,21 @@ func (c *Conn) writeRequest(apiKey apiKey, apiVersion apiVersion, correlationID 
 	hdr.writeTo(&c.wb)
 	req.writeTo(&c.wb)
 	return c.wbuf.Flush()
+}
+
+// skipRemainingOnKafkaError is used by the response parsers which stop reading
+// as soon as they find an error code reported by the broker: it discards the
+// bytes of the response that were left unread, so the connection (which is kept
+// open on such errors) remains positioned on the next response.
+func (c *Conn) skipRemainingOnKafkaError(size int, err error) (int, error) {
+	var kafkaError Error
+	if errors.As(err, &kafkaError) {
+		var discardErr error
+		if size, discardErr = discardN(&c.rbuf, size, size); discardErr != nil {
+			return size, discardErr
+		}
+	}
+	return size, err
 }
 
 func (c *Conn) readResponse(size int, res interface{}) error {
